@@ -208,6 +208,34 @@ def oracle(ctx, case, obs):
             return
         bfl, hfl = arr['bflags'], arr['hflags']
         hal = [unbits(b) for b in arr['halphas']]
+        # full pipeline (real Student first test): the p-value of a bin is defined iff its statistic
+        # is (only 0/0, equal values with BOTH errors NaN, and both values NaN are forced to t = 0),
+        # it is then the two-sided p-value of that statistic, and an undefined bin is flagged by both
+        if case['kind'] == 'student' and not case.get('masks'):
+            import c05
+            ref_v, ref_e = [[unbits(b) for b in x] for x in case['datasets'][0]]
+            dv, de = [[unbits(b) for b in x] for x in case['datasets'][d + 1]]
+            for i, p in enumerate(ps):
+                texp = c05.expected_t(ref_v[i], ref_e[i], dv[i], de[i])
+                pexp = c05.expected_pvalue(abs(texp), case['ndf'])
+                if pexp != pexp and not (bfl[i] and hfl[i]):
+                    ctx.oracle_failure(
+                        f'bin {i} of dataset {d} (values {ref_v[i]!r}, {dv[i]!r}; errors {ref_e[i]!r}, {de[i]!r}) has no '
+                        f'defined statistic but is accepted by {"Bonferroni" if not bfl[i] else "Holm-Bonferroni"} '
+                        f'(p-value reported: {p!r})' + tag, case, key='undefined-bin-accepted')
+                    return
+                if (pexp != pexp) != (p != p):
+                    ctx.oracle_failure(
+                        f'bin {i} of dataset {d} (values {ref_v[i]!r}, {dv[i]!r}; errors {ref_e[i]!r}, {de[i]!r}): p-value '
+                        f'{p!r} but the statistic is {"un" if pexp != pexp else ""}defined' + tag, case,
+                        key='pvalue-definedness')
+                    return
+                thyp = c05.expected_t(ref_v[i], ref_e[i], dv[i], de[i], hypot=True)
+                if pexp == pexp and not (c05.rel_close(p, pexp, 1e-7) or abs(p - pexp) < 1e-300
+                                         or c05.rel_close(p, c05.expected_pvalue(abs(thyp), case['ndf']), 1e-7)):
+                    ctx.oracle_failure(f'bin {i} of dataset {d}: p-value {p!r} handed to the corrections, two-sided '
+                                       f'p-value of the statistic is {pexp!r}' + tag, case, key='pipeline-pvalue')
+                    return
         # a bin without a defined p-value is never accepted
         for i, p in enumerate(ps):
             if p != p and not (bfl[i] and hfl[i]):
@@ -343,6 +371,15 @@ def gen_student(rng, m, shape, alpha):
         other = [v if rng.random() < 0.1 else (v + rng.gauss(0, 1) if v == v and abs(v) != math.inf else w)
                  for v, w in zip(ref, vals())]
         sets.append([other, errs()])
+    if rng.random() < 0.25:              # bins drawn from {equal, different values} x {error NaN in none/first/second/both}
+        for other, oerr in sets[1:]:
+            for i in range(m):
+                if rng.random() < 0.6:
+                    if rng.random() < 0.5 and ref[i] == ref[i]:
+                        other[i] = ref[i]
+                    pat = rng.randrange(4)
+                    sets[0][1][i] = NAN if pat in (1, 3) else (sets[0][1][i] if sets[0][1][i] == sets[0][1][i] else 0.3)
+                    oerr[i] = NAN if pat in (2, 3) else (oerr[i] if oerr[i] == oerr[i] else 0.4)
     case_extra = {}
     q = rng.random()
     if q < 0.2:                          # integer-valued data with integer dtypes (all or mixed)
@@ -411,6 +448,32 @@ def dtype_cases(rng, quick):
             case = stub_case(rng.choice([0.05, 0.5, 0.01, 0.25]), shape, parrs, [layouts.pick(rng, shape) for _ in parrs])
             case['pdtypes'] = [dtype] * len(parrs)
             out.append(case)
+    return out
+
+
+def nan_grid_cases():
+    '''real Student first test: every combination of {equal, different values} x {error NaN in none /
+    the first / the second / both datasets} per bin -- as one 2x4 array, as eight scalar comparisons
+    and with two compared datasets carrying different patterns'''
+    combos = [(same, pat) for same in (True, False) for pat in range(4)]
+
+    def bin_(same, pat):
+        return (5.0, NAN if pat in (1, 3) else 0.2, 5.0 if same else 5.9, NAN if pat in (2, 3) else 0.1)
+    bins = [bin_(*c) for c in combos]
+    out = []
+
+    def student(shape, ndf, *sets):
+        return {'kind': 'student', 'alpha': 0.05, 'shape': shape, 'ndf': ndf,
+                'datasets': [[[bits(x) for x in v], [bits(x) for x in e]] for v, e in sets]}
+    for ndf in (None, 10):
+        out.append(student([2, 4], ndf, ([b[0] for b in bins], [b[1] for b in bins]),
+                           ([b[2] for b in bins], [b[3] for b in bins])))
+        for b in bins:
+            out.append(student([], ndf, ([b[0]], [b[1]]), ([b[2]], [b[3]])))
+        for k in range(8):                       # one special bin among ordinary ones, two compared datasets
+            b, c = bins[k], bins[(k + 3) % 8]
+            out.append(student([3], ndf, ([5.2, b[0], 5.4], [0.2, b[1], 0.2]), ([5.1, b[2], 5.3], [0.1, b[3], 0.4]),
+                               ([5.3, c[2], 5.5], [0.3, c[3] if (c[1] != c[1]) == (b[1] != b[1]) else b[3], 0.2])))
     return out
 
 
@@ -516,10 +579,13 @@ def gen_cases(ctx):
     ctx.count('corpus', len(cases))
     cases += layout_cases()
     ctx.count('layout_grid_cases', len(cases) - ctx.dist['corpus'])
+    extra = nan_grid_cases()
+    ctx.count('student_nan_error_grid_cases', len(extra))
+    cases += extra
     extra = dtype_cases(rng, quick)
     ctx.count('non_float64_pvalue_cases', len(extra))
     cases += extra
-    nrand = 240 if quick else 9000
+    nrand = 200 if quick else 9000
     mmax = 40 if quick else 120
     for _ in range(nrand):
         m = rng.choice([1, 2, 3, 4, 5, 6, 8]) if rng.random() < 0.5 else rng.randint(1, mmax)
@@ -604,7 +670,7 @@ def run(ctx):
     ctx.rule = ('corpus (NaN, p == level/m, scalars, ties) + random p-value arrays of size 1..40 (quick) / '
                 '1..120 (thorough), scalar to 3-d shapes, 1..3 compared datasets, p-values drawn around the '
                 'per-rank levels incl. the exact levels and their float neighbours, ties 20%, 0/1 10%, NaN 12% '
-                'in a third of the cases; every p-value / value / error array handed over C- or Fortran-ordered, axis-permuted, strided, negatively strided, read-only or broadcast (55% non-plain) and the documented static methods called directly on them; 15% real Student tests (20% of them integer-valued with int dtypes, 30% masked through Dataset.mask(); 12% of the stub cases have a masked reference); p-value arrays of zeros and ones with every integer dtype and bool (all arrays of size <= 3, thorough 4) and dyadic p-values as float32/float16, through evaluate() and the static methods: levels/flags of the same numbers as float64; every case re-evaluates the same Bonferroni/Holm/first-test objects in another order and re-reads the earlier results; non-trivial = some array has flagged and '
+                'in a third of the cases; every p-value / value / error array handed over C- or Fortran-ordered, axis-permuted, strided, negatively strided, read-only or broadcast (55% non-plain) and the documented static methods called directly on them; 15% real Student tests, with the full-pipeline oracle (p-value handed to the corrections = two-sided p-value of the statistic of the datasets, defined iff the statistic is; undefined bins flagged) and a deterministic grid {equal, different values} x {error NaN in none/first/second/both} as array, scalars and with two compared datasets (20% of them integer-valued with int dtypes, 30% masked through Dataset.mask(); 12% of the stub cases have a masked reference); p-value arrays of zeros and ones with every integer dtype and bool (all arrays of size <= 3, thorough 4) and dyadic p-values as float32/float16, through evaluate() and the static methods: levels/flags of the same numbers as float64; every case re-evaluates the same Bonferroni/Holm/first-test objects in another order and re-reads the earlier results; non-trivial = some array has flagged and '
                 'unflagged bins under Holm-Bonferroni; distinct by case content')
     cases = gen_cases(ctx)
     exh, n_exh, bound = exhaustive_cases(ctx.tier)
